@@ -590,6 +590,8 @@ class SamplingMethod(DirectMethod):
 
             # Grid for B-spline
             self.xi = ca.vec(DM(self.time_grid(0, 1, self.N))).T
+            if isinstance(self.time_grid, FreeGrid) and (stage.variables['bspline'] or stage.parameters['bspline']):
+                raise Exception("B-spline signals (grid='bspline') need a grid with fixed knots: FreeGrid is not supported.")
 
             # Parameters needed before variables because of self.T = self.eval(stage, stage._T)
             self.add_parameter(stage, opti)
